@@ -269,7 +269,7 @@ impl Property for C17 {
          the call, sub-rule operands; nested macro calls to depth 3) and a program of 1-4 macro calls between global labels; the generator also produces the hand-inlined program (textual \
          substitution exactly as written, block labels renamed apart). Oracle: both assemble (default budget) to identical bits, or both fail. PART F (a third): 1-2 user functions \
          `#fn f(a, b) => body` with generated bodies over their parameters and global constants; `#d f(e1, e2)`64` must equal `#d (body[a:=(e1), b:=(e2)])`64` and the reference evaluator. \
-         PART R (the rest): recursion through functions (self, mutual), asm-block rules and nested calls at depths 3..10 (must succeed with the right value) and 100..20000 (must be an error, \
+         PART P (one in seven): a function whose body reads `$`, a later label or a non-static constant, called with literal arguments from instruction operands behind a short/long instruction family (so the layout moves after the first pass); the program must equal the one with the body substituted by hand. PART R (the rest): recursion through functions (self, mutual), asm-block rules and nested calls at depths 3..10 (must succeed with the right value) and 100..20000 (must be an error, \
          not a crash - a dying worker process is a violation). Non-trivial = (M) a block-local label is referenced or an argument is an expression of >= 2 tokens; (F) body depth >= 2; (R) depth >= 100."
             .to_string()
     }
@@ -317,7 +317,71 @@ impl Property for C17 {
         tier.pick(80_000, 400_000)
     }
     fn run(&self, t: &mut Tape, ctx: &mut CaseCtx) -> Verdict {
-        match t.weighted(&[6, 4, 2]) {
+        let w: [u32; 4] = if crate::engine::gen_version() >= 2 { [6, 4, 2, 2] } else { [6, 4, 2, 0] };
+        match t.weighted(&w) {
+            3 => {
+                // PART P (v2): a function whose body reads the position / a label / a non-static constant, called
+                // with literal arguments from an instruction operand, in a program whose layout moves after the
+                // first pass (a short/long family in front of the call site). Must equal the substituted program.
+                ctx.label("part:P");
+                let k1 = *t.pick(&[4u64, 6, 8, 12, 16]);
+                let isa = format!(
+                    "#ruledef\n{{\n    ld {{x}} => {{ assert(x < {}), 0x11 @ x`8 }}\n    ld {{x}} => 0x12 @ x`24\n    jmp {{a}} => 0xee @ a`8\n    br {{a}} => 0xef @ (a - $)`8\n    nop => 0x00\n}}\n",
+                    k1
+                );
+                let body_kind = t.draw(5);
+                let (fdecl, body_of): (String, Box<dyn Fn(u32) -> String>) = match body_kind {
+                    0 => ("#fn fpos(n) => $ + n\n".into(), Box::new(|n| format!("($ + {})", n))),
+                    1 => ("#fn fpos(n) => fwd + n\n".into(), Box::new(|n| format!("(fwd + {})", n))),
+                    2 => ("kdep = fwd + 1\n#fn fpos(n) => n + kdep\n".into(), Box::new(|n| format!("({} + kdep)", n))),
+                    3 => ("#fn fpos(n) => n * 2 + 1\n".into(), Box::new(|n| format!("({} * 2 + 1)", n))),
+                    _ => ("#fn fpos(n) => ($ + n) & 0xff\n".into(), Box::new(|n| format!("(($ + {}) & 0xff)", n))),
+                };
+                let mut a = isa.clone();
+                a.push_str(&fdecl);
+                let mut b = isa;
+                if body_kind == 2 {
+                    b.push_str("kdep = fwd + 1\n");
+                }
+                for _ in 0..t.urange(0, 4) {
+                    let l = if t.chance(1, 4) { "nop\n" } else { "ld fwd\n" };
+                    a.push_str(l);
+                    b.push_str(l);
+                }
+                for _ in 0..t.urange(1, 3) {
+                    let n = t.draw(5);
+                    let m = *t.pick(&["jmp", "br", "ld"]);
+                    a.push_str(&format!("{} fpos({})\n", m, n));
+                    b.push_str(&format!("{} {}\n", m, body_of(n)));
+                    if t.chance(1, 3) {
+                        a.push_str("ld fwd\n");
+                        b.push_str("ld fwd\n");
+                    }
+                }
+                a.push_str("fwd:\njmp 0x55\n");
+                b.push_str("fwd:\njmp 0x55\n");
+                ctx.set_hash_str(&a);
+                ctx.nontrivial = body_kind != 3;
+                let render = || json!({"function_program": a, "substituted_program": b});
+                ctx.render(render);
+                let oa = sut::assemble_src(&a, &Opts::default());
+                let ob = sut::assemble_src(&b, &Opts::default());
+                ctx.evals += 2;
+                ctx.label(if ob.ok().is_some() { "P:substituted-ok" } else { "P:substituted-error" });
+                let res = match (&oa, &ob) {
+                    (AsmOutcome::Panic(p), _) => Some((format!("P|panic {}", sut::panic_site(p)), p.clone())),
+                    (AsmOutcome::Ok(x), AsmOutcome::Ok(y)) if x.bits == y.bits => None,
+                    (AsmOutcome::Ok(x), AsmOutcome::Ok(y)) => Some(("P|call-in-operand-differs-from-substitution".to_string(), format!("calls: {} ; substituted: {}", sut::bits_hex(&x.bits), sut::bits_hex(&y.bits)))),
+                    (other, AsmOutcome::Ok(y)) => Some(("P|call-rejected-substitution-accepted".to_string(), format!("calls: {} ; substituted: ok {}", other.brief(), sut::bits_hex(&y.bits)))),
+                    _ => None, // the substituted program does not assemble: nothing is asserted
+                };
+                if let Some((c, d)) = res {
+                    ctx.want_render = true;
+                    ctx.render(render);
+                    return Verdict::fail(c, d);
+                }
+                Verdict::Pass
+            }
             0 => {
                 ctx.label("part:M");
                 let c = gen_macro_case(t);
